@@ -275,6 +275,17 @@ def hist_worker(case):
     lg = logging.getLogger("mxlpy.simulator")
     old_level = lg.level
     lg.setLevel(logging.ERROR)
+    # how often the closure converts the model again: counted at the name `_compile_jac` looks up
+    import mxlpy.simulator as simmod
+
+    conversions = [0]
+    orig_convert = simmod.to_symbolic_model
+
+    def counted(model_):
+        conversions[0] += 1
+        return orig_convert(model_)
+
+    simmod.to_symbolic_model = counted
     try:
         try:
             sim = Simulator(m, use_jacobian=True)
@@ -316,13 +327,16 @@ def hist_worker(case):
                     if jf is None:
                         out["outs"].append({"ok": None})
                     else:
+                        before = conversions[0]
                         try:
-                            out["outs"].append({"ok": _mat(jf(t, xs), nv)})
+                            o_ = {"ok": _mat(jf(t, xs), nv)}
                         except ZeroDivisionError:
                             raise
                         except Exception as e:  # noqa: BLE001
                             # the exception would escape from the solver; the Simulator (and the closure) stay in use
-                            out["outs"].append({"raised": _exc(e)["err"]})
+                            o_ = {"raised": _exc(e)["err"]}
+                        o_["conversions"] = conversions[0] - before
+                        out["outs"].append(o_)
             except ZeroDivisionError:
                 out["outs"].append("ZeroDivisionError")
                 break
@@ -332,6 +346,7 @@ def hist_worker(case):
         return out
     finally:
         lg.setLevel(old_level)
+        simmod.to_symbolic_model = orig_convert
 
 
 def hist_contents(case):
@@ -349,6 +364,24 @@ def hist_contents(case):
         elif op[0] == "edit":
             c = apply_edit(c, op[1])
     return out
+
+
+def edited_since_compile(case, i) -> int:
+    """order-free oracle for the number of conversions during call `i`: 1 iff the model was updated / edited since the
+    closure was last in step with it.  Walking back from the call: a `set` / `edit` means yes (each discards the model's
+    cache object, also a `set` to the value the parameter already has); a re-initialisation or an earlier call on a
+    model that converts means no (the closure was compiled for that model there); an earlier call on a model that does
+    not convert raised and left nothing behind, so the search goes on."""
+    cs = hist_contents(case)
+    for j in range(i - 1, -1, -1):
+        op = case["hist"][j]
+        if op[0] in ("set", "edit"):
+            return 1
+        if op[0] == "reinit":
+            return 0
+        if op[0] == "call" and should_convert(cs[j]) == "ok":
+            return 0
+    return 0
 
 
 def gen_hist(rng, content, n_ops):
@@ -490,6 +523,15 @@ def judge_hist(ctx, case, R, M):
         if isinstance(mv, dict) and (("raised" in mv) != ("raised" in ro)):
             ctx.add_drift(dict(sub, upto=i), ro, mv, "history: the real closure raises / the Lean closure does not (or vice versa)")
         ctx.hist["hist_call_judged"] = ctx.hist.get("hist_call_judged", 0) + 1
+        if "conversions" in ro and isinstance(mo, dict) and "c" in mo:
+            # the conversion runs once per change of the model, not once per call (Lean: `recompilesG`,
+            # theorem C12_no_needless_recompile); S = "something was edited since the last call that compiled"
+            want = 1 if mo["c"] else 0
+            ctx.hist[f"hist_conversions:{ro['conversions']}"] = ctx.hist.get(f"hist_conversions:{ro['conversions']}", 0) + 1
+            vv = ctx.judge(dict(sub, upto=i), ro["conversions"], edited_since_compile(case, i), want,
+                           what="history: conversions of the model during this Jacobian call (1 iff the model changed since the last compilation)")
+            if vv == "violation":
+                return
         v = ctx.judge(dict(sub, upto=i), _snap(r_, s_, exact) if NOMAT not in (r_, s_) else r_, s_, m_,
                       what="history: the matrix the integrator gets = Jacobian of the model's current content")
         if v == "violation":
